@@ -243,7 +243,7 @@ fn sections(cfg: &Cfg) -> Vec<(Sect, u64)> {
         (Sect::Chains, if q { 4_000 } else { 2_000_000 }),
         (Sect::Long, nn * var),
         (Sect::Lines, all_unary(3).len() as u64 * if q { 640 } else { 2400 }),
-        (Sect::Late, var * if q { 1 } else { 8 }),
+        (Sect::Late, var * if q { 2 } else { 8 }),
     ]
 }
 
@@ -330,7 +330,10 @@ fn dispatch<T: Scalar>(cfg: &Cfg, sect: Sect, j: u64, rng: &mut Rng, out: &mut T
         Sect::Late => {
             let no = *rng.pick(&[2usize, 3, 8, 20]);
             let outer = catalogue::bump_n(variants(no)[(j % var) as usize], no);
-            let zeros = *rng.pick(&[65_536usize, 131_072]) - rng.usize(0, no + 6);
+            // (Roc(2) delivers from the third non-zero value on: with d = 3..no+1 values missing to the power of
+            // two, the outer view has received between one value and a window less one at that update)
+            let d = if rng.chance(3, 4) { 3 + rng.usize(0, no - 2) } else { rng.usize(0, no + 6) };
+            let zeros = *rng.pick(&[65_536usize, 131_072]) - d;
             let mut xs = vec![0.0; zeros];
             let mut x = 0.0f64;
             for _ in 0..(4 * no + 40) {
